@@ -904,6 +904,8 @@ func (c *specCtx) call(t *ast.CallExpr, n *SpecNode) Val {
 						if f := c.x.prog.ssa.FuncValue(obj); f != nil {
 							if k, _ := externKind(f); k == "pure" {
 								var args []Val
+								want := c.wantResult // nth(i, f(args)) selects the i-th result of f, not of calls among its arguments
+								c.wantResult = 0
 								for i := range t.Args {
 									a := arg(i)
 									if a.Const != nil {
@@ -911,7 +913,11 @@ func (c *specCtx) call(t *ast.CallExpr, n *SpecNode) Val {
 									}
 									args = append(args, a)
 								}
+								c.wantResult = want
 								rs := c.x.pureCall(c.st, f, f.Signature, args)
+								if len(rs) > want {
+									return rs[want]
+								}
 								if len(rs) >= 1 {
 									return rs[0]
 								}
